@@ -133,7 +133,77 @@ class C14(PropertyCheck):
     ]
 
     # ------------------------------------------------------------------ generation
+    # -- round-3 hardening: the same mathematical case is fed through different dtypes / containers /
+    #    spellings of optional arguments / constructors (the exact model and the oracle do not care)
+    VALUE_KEYS = ("src", "native", "data", "noise", "padded")
+
     def generate(self, tier, rng):
+        for case in self._generate_base(tier, rng):
+            yield self._harden(rng, case)
+
+    def _harden(self, rng, case):
+        r = rng.random()
+        dt = "f8" if r < 0.45 else "i8" if r < 0.63 else "list" if r < 0.80 else "f4" if r < 0.88 else "obj"
+        v = {"dt": dt,
+             "shp": rng.choice(("tuple", "tuple", "list", "npint")),
+             "pad": rng.choice(("int", "float", "bool")),
+             "mask_in": rng.choice(("bool", "bool", "list", "int")),
+             "scalar_scale": rng.random() < 0.5,
+             "omit_defaults": rng.random() < 0.4,
+             "ctor": rng.choice(("native", "native", "slim", "no_mask_apply", "direct"))}
+        if dt in ("i8", "list"):
+            for k in self.VALUE_KEYS:
+                if k in case and any(Fraction(x).denominator != 1 for x in case[k]):
+                    case = {**case, k: qlist([Fraction(x) * 4 for x in case[k]])}
+        return {**case, "variant": v}
+
+    @staticmethod
+    def _var(case):
+        return case.get("variant") or {}
+
+    def _vals(self, case, key, h, w, need_ndarray=False):
+        """the value array of the case in the dtype / container the variant asks for."""
+        fr = [Fraction(x) for x in case[key]]
+        dt = self._var(case).get("dt", "f8")
+        integral = all(f.denominator == 1 for f in fr)
+        if dt == "i8" and integral:
+            return np.array([int(f) for f in fr], dtype=np.int64).reshape(h, w)
+        if dt == "f4":
+            return np.array([float(f) for f in fr], dtype=np.float32).reshape(h, w)
+        if dt == "list" and not need_ndarray:
+            flat = [int(f) if integral else float(f) for f in fr]
+            return [flat[y * w:(y + 1) * w] for y in range(h)]
+        if dt == "list" and integral:
+            return np.array([int(f) for f in fr], dtype=np.int64).reshape(h, w)
+        return np.array([float(f) for f in fr]).reshape(h, w)
+
+    def _shp(self, case, pair):
+        k = self._var(case).get("shp", "tuple")
+        if k == "list":
+            return [int(pair[0]), int(pair[1])]
+        if k == "npint":
+            return (np.int64(pair[0]), np.int64(pair[1]))
+        return (int(pair[0]), int(pair[1]))
+
+    def _padv(self, case, b):
+        k = self._var(case).get("pad", "int")
+        b = int(b)
+        return {"int": b, "float": float(b), "bool": bool(b)}[k]
+
+    def _scales_arg(self, case, sc):
+        if self._var(case).get("scalar_scale") and sc[0] == sc[1]:
+            return float(sc[0])
+        return sc
+
+    def _mask_arg(self, case, bits2d):
+        k = self._var(case).get("mask_in", "bool")
+        if k == "list":
+            return [[bool(b) for b in row] for row in bits2d]
+        if k == "int":
+            return np.array(bits2d, dtype=np.int64)
+        return np.array(bits2d, dtype=bool)
+
+    def _generate_base(self, tier, rng):
         quick = tier == "quick"
         # 1. raw util, exhaustive shapes (all parity combinations)
         src_max, dst_max = (5, 7) if quick else (8, 10)
@@ -226,6 +296,21 @@ class C14(PropertyCheck):
             margin = rng.choice((0, 0, 1, 2))
             m, mk = gen.random_mask(rng, h, w, margin=margin if min(h, w) > 2 * margin else 0)
             yield self._apply_mask_case(rng, m, kh, kw, f"apply_mask_random_{mk}")
+        # degenerate frames (1x1, 1xN, Nx1) and masks with zero / one unmasked pixel
+        for (h, w), (kh, kw) in itertools.product([(1, 1), (1, 3), (3, 1), (1, 4), (2, 1), (2, 2)],
+                                                  [(1, 1), (3, 3), (1, 3), (3, 1), (5, 3)]):
+            yield self._apply_mask_case(rng, gen.full(h, w, False), kh, kw, "apply_mask_degenerate_all_unmasked")
+            yield self._apply_mask_case(rng, gen.full(h, w, True), kh, kw, "apply_mask_degenerate_all_masked")
+            yield self._apply_mask_case(rng, gen.random_mask(rng, h, w, kind="single")[0], kh, kw,
+                                        "apply_mask_degenerate_single")
+        for _ in range(30 if quick else 200):
+            h, w = rng.randint(1, 5), rng.randint(1, 5)
+            yield {"tag": "array_chain_all_masked", "kind": "array_chain", "mask": mask_json(gen.full(h, w, True)),
+                   **_geom_case(rng), "native": qlist(_values(rng, h * w)), "store_native": rng.random() < 0.5,
+                   "roundtrip": True,
+                   "steps": [{"k": "resize", "shape": [h + rng.randint(0, 3), w + rng.randint(0, 3)],
+                              "mask_pad": rng.choice((0, 1))},
+                             {"k": "resize", "shape": [h, w], "mask_pad": 0}]}
         # 6b. successive apply_mask calls: every later mask is applied to the retained unmasked dataset
         rel_kinds = ("superset", "subset", "disjoint", "shifted", "random", "all_false_first")
         chain_shapes = [(3, 3), (3, 4), (4, 5)] if quick else [(3, 3), (3, 4), (4, 3), (4, 5), (5, 4), (5, 6)]
@@ -302,7 +387,11 @@ class C14(PropertyCheck):
             r = rel if rel != "all_false_first" else rng.choice(("random", "subset"))
             if len(masks) >= 2:
                 r = rng.choice(("superset", "subset", "disjoint", "shifted", "random"))
-            masks.append(self._related_mask(rng, masks[-1], r, margin))
+            if rng.random() < 0.08:
+                masks.append(gen.full(h, w, True))      # zero unmasked pixels: triples are vacuous, no crash
+            else:
+                prev = masks[-1] if any(not v for row in masks[-1] for v in row) else masks[0]
+                masks.append(self._related_mask(rng, prev, r, margin))
         return {"tag": f"apply_mask_chain_{rel}", "kind": "apply_mask_chain", "h": h, "w": w,
                 "masks": [mask_json(m) for m in masks], **_geom_case(rng),
                 "data": qlist(_values(rng, h * w)),
@@ -344,8 +433,47 @@ class C14(PropertyCheck):
 
     def _mask2d(self, aa, case):
         sc, og = self._geom(case)
-        m = np.array(_bits(case["mask"]), dtype=bool)
-        return aa.Mask2D(mask=m, pixel_scales=sc, origin=og)
+        return aa.Mask2D(mask=self._mask_arg(case, _bits(case["mask"])),
+                         pixel_scales=self._scales_arg(case, sc), origin=og)
+
+    def _make_array(self, aa, case, mask, key, h, w, store_native=False):
+        """Array2D on `mask` holding case[key], through the constructor route the variant names."""
+        v = self._var(case)
+        vals = self._vals(case, key, h, w)
+        ctor = v.get("ctor", "native")
+        if v.get("dt") == "obj":   # an autoarray structure where an array is accepted
+            vals = aa.Array2D.no_mask(values=self._vals({**case, "variant": {}}, key, h, w),
+                                      pixel_scales=mask.pixel_scales, origin=mask.origin).native
+        if ctor == "slim" and v.get("dt") != "obj":
+            m = np.asarray(mask).astype(bool)
+            flat = np.asarray(vals, dtype=np.asarray(vals).dtype).reshape(h, w)[~m]
+            if v.get("dt") == "list":
+                flat = flat.tolist()
+            return aa.Array2D(values=flat, mask=mask, store_native=store_native)
+        if ctor == "no_mask_apply" and not store_native:
+            return aa.Array2D.no_mask(values=vals, pixel_scales=mask.pixel_scales,
+                                      origin=mask.origin).apply_mask(mask=mask)
+        return aa.Array2D(values=vals, mask=mask, store_native=store_native)
+
+    def _unmasked_pair(self, aa, case, h, w, sc, og):
+        """unmasked data and noise map: Array2D.no_mask, or Array2D(values, mask=Mask2D.all_false(...))"""
+        out = []
+        for key in ("data", "noise"):
+            vals = self._vals(case, key, h, w)
+            if self._var(case).get("ctor") in ("slim", "no_mask_apply"):
+                m = aa.Mask2D.all_false(shape_native=(h, w), pixel_scales=self._scales_arg(case, sc), origin=og)
+                out.append(aa.Array2D(values=vals, mask=m))
+            else:
+                out.append(aa.Array2D.no_mask(values=vals, pixel_scales=self._scales_arg(case, sc), origin=og))
+        return out
+
+    def _psf(self, aa, case, kh, kw, sc):
+        dt = self._var(case).get("dt", "f8")
+        if dt in ("i8", "list"):
+            vals = np.ones((kh, kw), dtype=np.int64) if dt == "i8" else [[1] * kw for _ in range(kh)]
+        else:
+            vals = np.ones((kh, kw))
+        return aa.Kernel2D.no_mask(values=vals, pixel_scales=self._scales_arg(case, sc))
 
     def run_impl(self, case):
         aa = load_autoarray()
@@ -353,26 +481,37 @@ class C14(PropertyCheck):
 
         kind = case["kind"]
         if kind == "util_resize":
-            src = np.array([float(Fraction(v)) for v in case["src"]]).reshape(case["h"], case["w"])
+            src = self._vals(case, "src", case["h"], case["w"], need_ndarray=True)
             kw = {}
             if case["origin"] is not None:
                 kw["origin"] = tuple(case["origin"])
+            elif not self._var(case).get("omit_defaults", True):
+                kw["origin"] = (-1, -1)  # the explicit value equal to the default
+            pad = Fraction(case["pad"])
+            padv = int(pad) if pad.denominator == 1 and self._var(case).get("pad") == "int" else float(pad)
+            if not (pad == 0 and self._var(case).get("omit_defaults")):
+                kw["pad_value"] = padv
             out = array_2d_util.resized_array_2d_from(
-                array_2d=src, resized_shape=tuple(case["shape"]),
-                pad_value=float(Fraction(case["pad"])), **kw)
+                array_2d=src, resized_shape=self._shp(case, case["shape"]), **kw)
             if tuple(out.shape) != tuple(case["shape"]):
                 return {"err": "wrong_shape", "msg": str(out.shape)}
             return qlist(out.ravel())
         if kind == "util_extract":
-            src = np.array([float(Fraction(v)) for v in case["src"]]).reshape(case["h"], case["w"])
+            src = self._vals(case, "src", case["h"], case["w"], need_ndarray=True)
             y0, y1, x0, x1 = case["win"]
+            if self._var(case).get("shp") == "npint":
+                y0, y1, x0, x1 = (np.int64(v) for v in (y0, y1, x0, x1))
             out = array_2d_util.extracted_array_2d_from(array_2d=src, y0=y0, y1=y1, x0=x0, x1=x1)
             return {"shape": [int(out.shape[0]), int(out.shape[1])], "values": qlist(out.ravel())}
         if kind == "mask_chain":
             mask = self._mask2d(aa, case)
             obs = {"init": self._mask_obs(mask), "steps": []}
             for s in case["steps"]:
-                mask = mask.resized_from(new_shape=tuple(s["shape"]), pad_value=s["mask_pad"])
+                if s["mask_pad"] == 0 and self._var(case).get("omit_defaults"):
+                    mask = mask.resized_from(new_shape=self._shp(case, s["shape"]))
+                else:
+                    mask = mask.resized_from(new_shape=self._shp(case, s["shape"]),
+                                             pad_value=self._padv(case, s["mask_pad"]))
                 o = self._mask_obs(mask)
                 g = np.asarray(aa.Grid2D.from_mask(mask=mask).array).reshape(-1, 2)
                 o["grid"] = [qlist(p) for p in g]
@@ -381,17 +520,18 @@ class C14(PropertyCheck):
         if kind == "array_chain":
             mask = self._mask2d(aa, case)
             h, w = case["mask"]["h"], case["mask"]["w"]
-            vals = np.array([float(Fraction(v)) for v in case["native"]]).reshape(h, w)
-            arr = aa.Array2D(values=vals, mask=mask, store_native=case["store_native"])
+            arr = self._make_array(aa, case, mask, "native", h, w, store_native=case["store_native"])
             obs = {"init": self._arr_obs(aa, arr), "steps": []}
+            omit = self._var(case).get("omit_defaults")
             for s in case["steps"]:
+                kwp = {} if (s.get("mask_pad", 0) == 0 and omit) else \
+                    {"mask_pad_value": self._padv(case, s.get("mask_pad", 0))}
                 if s["k"] == "resize":
-                    arr = arr.resized_from(new_shape=tuple(s["shape"]), mask_pad_value=s["mask_pad"])
+                    arr = arr.resized_from(new_shape=self._shp(case, s["shape"]), **kwp)
                 elif s["k"] == "pad":
-                    arr = arr.padded_before_convolution_from(kernel_shape=tuple(s["kernel"]),
-                                                             mask_pad_value=s["mask_pad"])
+                    arr = arr.padded_before_convolution_from(kernel_shape=self._shp(case, s["kernel"]), **kwp)
                 else:
-                    arr = arr.trimmed_after_convolution_from(kernel_shape=tuple(s["kernel"]))
+                    arr = arr.trimmed_after_convolution_from(kernel_shape=self._shp(case, s["kernel"]))
                 obs["steps"].append(self._arr_obs(aa, arr))
             return obs
         if kind == "mask_trim":
@@ -401,11 +541,10 @@ class C14(PropertyCheck):
                 hp, wp = case["padded_shape"]
             else:
                 hp, wp = ih + case["kernel"][0] - 1, iw + case["kernel"][1] - 1
-            pm = aa.Mask2D.all_false(shape_native=(hp, wp), pixel_scales=sc, origin=og)
-            pa = aa.Array2D.no_mask(
-                values=np.array([float(Fraction(v)) for v in case["padded"]]).reshape(hp, wp),
-                pixel_scales=sc, origin=og)
-            out = pm.trimmed_array_from(padded_array=pa, image_shape=(ih, iw))
+            pm = aa.Mask2D.all_false(shape_native=(hp, wp), pixel_scales=self._scales_arg(case, sc), origin=og)
+            pa = aa.Array2D.no_mask(values=self._vals(case, "padded", hp, wp),
+                                    pixel_scales=self._scales_arg(case, sc), origin=og)
+            out = pm.trimmed_array_from(padded_array=pa, image_shape=self._shp(case, (ih, iw)))
             return {"shape": [int(v) for v in out.shape_native],
                     "native": qlist(np.asarray(out.native.array).ravel()),
                     "scales": qlist(out.mask.pixel_scales), "origin": qlist(out.mask.origin),
@@ -414,41 +553,43 @@ class C14(PropertyCheck):
             sc, og = self._geom(case)
             mask = self._mask2d(aa, case)
             h, w = case["mask"]["h"], case["mask"]["w"]
-            data = aa.Array2D.no_mask(
-                values=np.array([float(Fraction(v)) for v in case["data"]]).reshape(h, w),
-                pixel_scales=sc, origin=og)
-            noise = aa.Array2D.no_mask(
-                values=np.array([float(Fraction(v)) for v in case["noise"]]).reshape(h, w),
-                pixel_scales=sc, origin=og)
             kh, kw = case["kernel"]
-            psf = aa.Kernel2D.no_mask(values=np.ones((kh, kw)), pixel_scales=sc)
-            ds = aa.Imaging(data=data, noise_map=noise, psf=psf).apply_mask(mask=mask)
+            psf = self._psf(aa, case, kh, kw, sc)
+            if self._var(case).get("ctor") == "direct":
+                # the same functionality without apply_mask: Imaging(...) of already-masked arrays with
+                # pad_for_convolver=True performs the automatic padding itself
+                data = aa.Array2D(values=self._vals(case, "data", h, w), mask=mask)
+                noise = aa.Array2D(values=self._vals(case, "noise", h, w), mask=mask)
+                ds = aa.Imaging(data=data, noise_map=noise, psf=psf, pad_for_convolver=True)
+            else:
+                data, noise = self._unmasked_pair(aa, case, h, w, sc, og)
+                ds = aa.Imaging(data=data, noise_map=noise, psf=psf).apply_mask(mask=mask)
             return self._ds_obs(aa, ds, h, w)
         if kind == "apply_mask_chain":
             sc, og = self._geom(case)
             h, w = case["h"], case["w"]
-            data = aa.Array2D.no_mask(
-                values=np.array([float(Fraction(v)) for v in case["data"]]).reshape(h, w),
-                pixel_scales=sc, origin=og)
-            noise = aa.Array2D.no_mask(
-                values=np.array([float(Fraction(v)) for v in case["noise"]]).reshape(h, w),
-                pixel_scales=sc, origin=og)
+            data, noise = self._unmasked_pair(aa, case, h, w, sc, og)
             kh, kw = case["kernel"]
-            psf = aa.Kernel2D.no_mask(values=np.ones((kh, kw)), pixel_scales=sc)
+            psf = self._psf(aa, case, kh, kw, sc)
             ds = aa.Imaging(data=data, noise_map=noise, psf=psf)
             steps = []
             for mj in case["masks"]:
-                mask = aa.Mask2D(mask=np.array(_bits(mj), dtype=bool), pixel_scales=sc, origin=og)
+                mask = aa.Mask2D(mask=self._mask_arg(case, _bits(mj)), pixel_scales=self._scales_arg(case, sc),
+                                 origin=og)
                 ds = ds.apply_mask(mask=mask)
                 steps.append(self._ds_obs(aa, ds, h, w))
             return steps
         if kind == "zoom":
             mask = self._mask2d(aa, case)
             h, w = case["mask"]["h"], case["mask"]["w"]
-            vals = np.array([float(Fraction(v)) for v in case["native"]]).reshape(h, w)
-            arr = aa.Array2D(values=vals, mask=mask)
+            arr = self._make_array(aa, case, mask, "native", h, w)
             region = [int(v) for v in mask.zoom_region]
-            z = arr.zoomed_around_mask(buffer=case["buffer"])
+            if case["buffer"] == 1 and self._var(case).get("omit_defaults"):
+                z = arr.zoomed_around_mask()
+            elif self._var(case).get("shp") == "npint":
+                z = arr.zoomed_around_mask(buffer=np.int64(case["buffer"]))
+            else:
+                z = arr.zoomed_around_mask(buffer=case["buffer"])
             return {"region": region, "shape": [int(v) for v in z.shape_native],
                     "native": qlist(np.asarray(z.native.array).ravel()),
                     "scales": qlist(z.mask.pixel_scales)}
